@@ -587,6 +587,13 @@ func (e *c19ProgEnv) step(dt time.Duration) {
 			recorded[p0.avail.Denom].Add(recorded[p0.avail.Denom], d)
 			e.logf("  %s recorded %s%s paid (available %s -> %s, epoch %d of %d)", key, d, p0.avail.Denom, p0.avail.Amount, p1.avail.Amount, p1.count, p0.days)
 		}
+		e.rec.Eval(1)
+		if p1.avail.Amount.IsNegative() && !p0.avail.Amount.IsNegative() {
+			// the rewards account is shared: a programme that pays out more than its own undistributed remainder pays
+			// with the coins the account holds for the other programmes and gauges
+			e.rec.Violate("C19/programme/"+p0.kind+"/paid-more-than-its-remainder", fmt.Sprintf("%s had %s%s left and recorded %s paid in this block: remainder %s", key, p0.avail.Amount, p0.avail.Denom, d, p1.avail.Amount),
+				e.witness(map[string]interface{}{"programme": key, "remainder_before": p0.avail.Amount.String(), "remainder_after": p1.avail.Amount.String(), "epoch": p1.count, "days": p0.days}))
+		}
 		if p1.avail.Amount.IsNegative() {
 			e.rec.Count("prog_available_negative_"+p0.kind, 1)
 			if p0.kind == "lend" {
